@@ -282,6 +282,135 @@ func c16fixedCase(c *h.Ctx, idx uint64, dump map[uint64]bool) {
 	c.Fail(key, msg, map[string]interface{}{"box": box, "ring": ring, "orientation": int(o), "output": sv(out), "detail": det, "contact_configuration": true, "fixed_list_case_id": idx})
 }
 
+// c16slotted builds the slotted square: outer ring counter-clockwise, holes (axis-parallel squares) clockwise, all closed;
+// returns the rings and a box, after a random symmetry of the square.
+func c16slotted(r *h.Rand) ([][]P, [4]float64) {
+	k := r.Range(2, 5)
+	ys := make([]float64, k+1)
+	ys[0] = -5
+	ys[k] = r.Uniform(12, 13.5)
+	for j := 1; j < k; j++ {
+		ys[j] = r.Uniform(-4, 11.5)
+	}
+	sort.Float64s(ys)
+	for j := 1; j <= k; j++ {
+		if ys[j]-ys[j-1] < 0.05 {
+			return nil, [4]float64{}
+		}
+	}
+	m := r.Range(1, 3)
+	w := r.Uniform(0.2, 0.7)
+	// centre lines: at every level the slots keep their left-to-right order with a gap
+	cs := make([][]float64, m)
+	for i := range cs {
+		cs[i] = make([]float64, k+1)
+	}
+	for j := 0; j <= k; j++ {
+		xs := make([]float64, m)
+		for tries := 0; ; tries++ {
+			for i := range xs {
+				xs[i] = r.Uniform(-3, 13)
+			}
+			sort.Float64s(xs)
+			ok := true
+			for i := 1; i < m; i++ {
+				ok = ok && xs[i]-xs[i-1] > 2*w+0.6
+			}
+			if ok {
+				break
+			}
+			if tries > 50 {
+				return nil, [4]float64{}
+			}
+		}
+		for i := range xs {
+			cs[i][j] = xs[i]
+		}
+	}
+	outer := []P{{-5, -5}}
+	for i := 0; i < m; i++ {
+		for j := 0; j <= k; j++ {
+			outer = append(outer, P{cs[i][j] - w, ys[j]})
+		}
+		for j := k; j >= 0; j-- {
+			outer = append(outer, P{cs[i][j] + w, ys[j]})
+		}
+	}
+	outer = append(outer, P{15, -5}, P{15, 15}, P{-5, 15}, P{-5, -5})
+	centre := func(i int, y float64) float64 {
+		for j := 1; j <= k; j++ {
+			if y <= ys[j] {
+				t := (y - ys[j-1]) / (ys[j] - ys[j-1])
+				return cs[i][j-1] + t*(cs[i][j]-cs[i][j-1])
+			}
+		}
+		return math.NaN() // above the slot's end
+	}
+	rings := [][]P{outer}
+	type sq struct{ x, y, h float64 }
+	var holes []sq
+	for n := r.Range(2, 10); n > 0; n-- {
+		hq := sq{r.Uniform(-1.5, 10.8), r.Uniform(-1.5, 10.8), r.Uniform(0.15, 0.7)}
+		ok := hq.y+hq.h+0.1 < ys[k]
+		levels := []float64{hq.y - 0.1, hq.y + hq.h + 0.1}
+		for _, y := range ys {
+			if y > levels[0] && y < levels[1] {
+				levels = append(levels, y)
+			}
+		}
+		for i := 0; i < m && ok; i++ {
+			left, right := true, true
+			for _, y := range levels {
+				cx := centre(i, y)
+				left = left && hq.x+hq.h+0.1 < cx-w
+				right = right && hq.x-0.1 > cx+w
+			}
+			ok = left || right
+		}
+		for _, o := range holes {
+			if hq.x < o.x+o.h+0.1 && o.x < hq.x+hq.h+0.1 && hq.y < o.y+o.h+0.1 && o.y < hq.y+hq.h+0.1 {
+				ok = false
+			}
+		}
+		if ok {
+			holes = append(holes, hq)
+			rings = append(rings, []P{{hq.x, hq.y}, {hq.x, hq.y + hq.h}, {hq.x + hq.h, hq.y + hq.h}, {hq.x + hq.h, hq.y}, {hq.x, hq.y}})
+		}
+	}
+	box := [4]float64{r.Uniform(-0.5, 2), r.Uniform(-0.5, 2), r.Uniform(8, 10.5), r.Uniform(8, 10.5)}
+	// a symmetry of the square about (5,5)
+	swap, fx, fy := r.Bool(), r.Bool(), r.Bool()
+	tr := func(p P) P {
+		if fx {
+			p[0] = 10 - p[0]
+		}
+		if fy {
+			p[1] = 10 - p[1]
+		}
+		if swap {
+			p[0], p[1] = p[1], p[0]
+		}
+		return p
+	}
+	flips := 0
+	for _, f := range []bool{swap, fx, fy} {
+		if f {
+			flips++
+		}
+	}
+	for _, rg := range rings {
+		for i := range rg {
+			rg[i] = tr(rg[i])
+		}
+		if flips%2 == 1 {
+			gen.Reverse(rg)
+		}
+	}
+	a, bq := tr(P{box[0], box[1]}), tr(P{box[2], box[3]})
+	box = [4]float64{math.Min(a[0], bq[0]), math.Min(a[1], bq[1]), math.Max(a[0], bq[0]), math.Max(a[1], bq[1])}
+	return rings, box
+}
+
 func c16runRing(box [4]float64, ring []P, o orb.Orientation) (out orb.MultiPolygon, pv interface{}, stack string) {
 	pv, stack = h.Catch(func() {
 		out = smartclip.Ring(boundOf(box[0], box[1], box[2], box[3]), pToRing(ring), o)
@@ -632,6 +761,79 @@ func init() {
 					}
 					c.Nontrivial(h.Mix(hashP(in[0][0]), h.HashFloats(box[:]...), uint64(np), uint64(o+2)))
 					c.Sample(map[string]interface{}{"box": box, "multipolygon": in, "orientation": int(o), "output": sv(out)})
+				},
+			},
+			{
+				// one polygon that the box cuts into several pieces whose bounding boxes overlap or nest: a large square with
+				// 1..3 zigzag slots running through the box, and small holes scattered over the pieces (some cut, most not)
+				Name: "multi-piece-polygons-with-holes", Count: h.Fixed(6000, 600000),
+				Run: func(c *h.Ctx, idx uint64, r *h.Rand) {
+					rings, box := c16slotted(r)
+					if rings == nil {
+						return
+					}
+					o := orb.CCW
+					if r.Bool() {
+						o = orb.CW
+						for _, rg := range rings {
+							gen.Reverse(rg)
+						}
+					}
+					for _, rg := range rings {
+						if c16contact(box, rg) {
+							return
+						}
+					}
+					if !cutByBox(box, rings[0]) {
+						return
+					}
+					c.Note([]byte(fmt.Sprintf("box=%v polygon=%v o=%d", box, rings, o)))
+					var pg orb.Polygon
+					for _, rg := range rings {
+						pg = append(pg, pToRing(rg))
+					}
+					in := [][][]P{rings}
+					b := boundOf(box[0], box[1], box[2], box[3])
+					qs := c16queries(r, box, 40)
+					for _, hr := range rings[1:] {
+						// the middle of every hole, and points just outside its four sides
+						cx, cy := (hr[0][0]+hr[2][0])/2, (hr[0][1]+hr[2][1])/2
+						qs = append(qs, P{cx, cy})
+					}
+					exp := plainClipArea(box, in)
+					var out orb.MultiPolygon
+					pv, st := h.Catch(func() { out = smartclip.Polygon(b, clonePoly(pg), o) })
+					c.Eval()
+					if pv != nil {
+						c.Fail("", "smartclip.Polygon panicked", map[string]interface{}{"box": box, "polygon": rings, "orientation": int(o), "panic": sv(pv), "stack": st})
+						return
+					}
+					if msg, det := c16judge(box, in, o, out, exp, qs, 40); msg != "" {
+						c.Fail("", "smartclip.Polygon (several pieces): "+msg, map[string]interface{}{"box": box, "polygon": rings, "orientation": int(o), "output": sv(out), "detail": det})
+						return
+					}
+					var out2 orb.MultiPolygon
+					pv, st = h.Catch(func() { out2 = smartclip.MultiPolygon(b, orb.MultiPolygon{clonePoly(pg)}, o) })
+					c.Eval()
+					if pv != nil {
+						c.Fail("", "smartclip.MultiPolygon panicked", map[string]interface{}{"box": box, "polygon": rings, "orientation": int(o), "panic": sv(pv), "stack": st})
+						return
+					}
+					if msg, det := c16judge(box, in, o, out2, exp, qs, 40); msg != "" {
+						c.Fail("", "smartclip.MultiPolygon (several pieces): "+msg, map[string]interface{}{"box": box, "polygon": rings, "orientation": int(o), "output": sv(out2), "detail": det})
+						return
+					}
+					c.Max("result polygons from one input polygon", float64(len(out)), nil)
+					holesOut := 0
+					for _, p := range out {
+						holesOut += len(p) - 1
+					}
+					c.Count("holes_attached_in_results", int64(holesOut))
+					if len(out) >= 2 {
+						c.Count("results_with_two_or_more_pieces", 1)
+					}
+					c.Nontrivial(h.Mix(hashP(rings[0]), h.HashFloats(box[:]...), uint64(len(rings)), uint64(o+2)))
+					c.Sample(map[string]interface{}{"box": box, "polygon": rings, "orientation": int(o), "output": sv(out)})
 				},
 			},
 			{
